@@ -35,6 +35,21 @@ CLAIMS["C02"] = (
     "entries the code records for rejected listeners never change a verdict; both models are run against the real code on every run and the decidable guarantees are evaluated on the real admitted lists.",
     ARB_NOTE + " DNS-label and IP-address syntax are oracle bits probed from the real validator.", "DESIGN.md 7 C02")
 
+CLAIMS["C03"] = (
+    "Rocq model of IsEqual / detectChangesIn* / createResourceChanges* / squash / deletes-first tied to the real Configuration by correspondence; the decidable specification "
+    "(replay of the implementation's own change batches into a shadow == GetResources after every event; deletes before updates) evaluated in Rocq on every generated history",
+    "The shadow-replay specification is evaluated by the Rocq kernel (vm_compute) on the real change batches of every generated history, and the change-emitting code is covered by the "
+    "step-by-step correspondence with the model; machine-checked theorems so far: the applied state is a function of the object set (hosts/listener hosts rebuilt from scratch). "
+    "The full invariant `shadow tracks state` over all histories is stated in DESIGN.md and not yet proved (partial). Three genuine defects found by this check were repaired by fix: commits.",
+    ARB_NOTE + " Attributes a configuration is rendered from = the whole Resource except warnings; an object's spec is identified by (UID, generation, annotations).", "DESIGN.md 7 C03")
+CLAIMS["C20"] = (
+    "Rocq theorems over all histories, fault oracles and lister orders of a model of SyncFnFor (certmanager + externaldns), tied by a correspondence harness on the real sync functions with "
+    "fake clientsets/listers; the four properties evaluated on the implementation's own action logs and stores; the update predicate is probed each run",
+    "Machine-checked proof (no axioms) of ownership safety in full, idempotence (full for Certificates; for DNSEndpoints except `labels: {}`), DNSEndpoint freshness in full, Certificate freshness "
+    "and garbage collection in restricted form with vm_compute refutations of the full statements, every refutation reproduced on the real code (known findings F22e-i; F22a-d repaired).",
+    "Trusted: Rocq kernel; the harness; the fake object tracker + JSON round trip standing in for the API server; listers refreshed between, not during, synchronizations; one namespace; "
+    "oracles for time.ParseDuration / IsValidIP; the key-usage table is transcribed.", "DESIGN.md 7 C20")
+
 NOT_YET = {}
 
 
